@@ -215,3 +215,224 @@ Proof.
   rewrite (filter_none (from_start start) pre) by (intros y Hy; specialize (Hlo y Hy); unfold from_start; lia).
   cbn [app]. apply filter_all. intros y [<-|Hy]; unfold from_start; [lia|]. specialize (Hhi y Hy). lia.
 Qed.
+
+(* ---------------------------------------------------------------- 2. the cursor block's own segment *)
+
+Lemma StronglySorted_app_l : forall {A} (R : A -> A -> Prop) l1 l2, StronglySorted R (l1 ++ l2) -> StronglySorted R l1.
+Proof.
+  induction l1 as [|a l1 IH]; cbn; intros l2 H; [constructor|].
+  inversion H as [|? ? HS Hall]; subst. constructor; [eapply IH; eauto|].
+  rewrite Forall_forall in *. intros y Hy. apply Hall. apply in_app_iff. left. exact Hy.
+Qed.
+
+Lemma Forall_app_l : forall {A} (P : A -> Prop) l1 l2, Forall P (l1 ++ l2) -> Forall P l1.
+Proof. intros A P l1 l2 H. rewrite Forall_forall in *. intros x Hx. apply H. apply in_app_iff. auto. Qed.
+Lemma Forall_app_r : forall {A} (P : A -> Prop) l1 l2, Forall P (l1 ++ l2) -> Forall P l2.
+Proof. intros A P l1 l2 H. rewrite Forall_forall in *. intros x Hx. apply H. apply in_app_iff. auto. Qed.
+
+Lemma sorted_nodup_sid : forall d sg, (forall x, In x sg -> find (sid x) (store d) = Some (sent x)) ->
+  StronglySorted seg_lt sg -> NoDup (map sid sg).
+Proof.
+  intros d sg Hst SInc. induction sg as [|x sg IH]; cbn; [constructor|].
+  inversion SInc as [|? ? HS' Hall]; subst.
+  constructor; [|apply IH; auto; intros y Hy; apply Hst; right; exact Hy].
+  intros Hin. rewrite in_map_iff in Hin. destruct Hin as [y [Hy Hyin]].
+  rewrite Forall_forall in Hall. specialize (Hall y Hyin). unfold seg_lt, seg_blk in Hall.
+  pose proof (Hst x (or_introl eq_refl)) as F1. pose proof (Hst y (or_intror Hyin)) as F2.
+  rewrite Hy in F2. rewrite F1 in F2. inversion F2 as [F3]. rewrite F3 in Hall. lia.
+Qed.
+
+(* the complete segment of any reference that carries the number of its stored block *)
+Lemma numbered_segment_good : forall d r csg reach, wf_store (store d) ->
+  complete_segment d r = Some (csg, reach) ->
+  (forall e, find (ri r) (store d) = Some e -> bnum (eb e) = rn r) ->
+  good_seg csg /\ seg_stored d csg /\ chain_to d (ri r) (rn r) csg /\
+  find (seg_bottom (ri r) csg) (store d) = None /\
+  (forall lo x, csg = lo ++ [x] -> sid x = ri r /\ snum x = rn r) /\
+  (reach = true <-> In (ri (libref d)) (map sid csg ++ [seg_bottom (ri r) csg])).
+Proof.
+  intros d r csg reach W E Hnum.
+  pose proof (complete_segment_segment_of _ _ _ _ E) as S.
+  pose proof (segment_of_chain_to _ _ _ _ S) as C.
+  pose proof (chain_to_increasing _ _ _ _ W C) as Inc.
+  destruct S as [Hst Hl Htop Hmax Hreach].
+  assert (Hstd : Forall seg_std csg).
+  { rewrite Forall_forall. intros x Hx. split.
+    - symmetry. apply (find_key _ _ _ (Hst x Hx)).
+    - destruct (list_snoc_cases csg) as [->|[pre [z ->]]]; [contradiction|].
+      destruct (Htop pre z eq_refl) as [Hs [Hn Hall]].
+      apply in_app_iff in Hx. destruct Hx as [Hx|[<-|[]]]; [auto|].
+      rewrite Hn. symmetry. apply Hnum. rewrite <- Hs. apply Hst. apply in_app_iff. right. left. reflexivity. }
+  pose proof (Sorted_StronglySorted_lt _ Inc) as SInc.
+  split; [constructor; auto; eapply sorted_nodup_sid; eauto|].
+  split; [exact Hst|]. split; [exact C|]. split; [exact Hmax|]. split; [|exact Hreach].
+  intros lo x ->. destruct (Htop lo x eq_refl) as [Hs [Hn _]]. auto.
+Qed.
+
+(* ---------------------------------------------------------------- through_branch *)
+
+Lemma wrap_through : forall hd c x, seg_std x ->
+  wrap x (if snum x <=? rn (cu_lib c) then SNewIrr else SNew) (bref hd)
+       (if snum x <? rn (cu_lib c) then seg_ref x else cu_lib c) None = through_event hd c x.
+Proof.
+  intros hd c x [Hi Hn]. unfold wrap, through_event, seg_ref. rewrite Hi, Hn. unfold seg_blk, bref.
+  destruct (bnum (eb (sent x)) <=? rn (cu_lib c)); reflexivity.
+Qed.
+
+Lemma through_branch_lo : forall start c hd lo tl acc,
+  Forall seg_std lo -> (forall y, In y lo -> bnum (seg_blk y) < rn (cu_blk c)) ->
+  through_branch (lo ++ tl) start c hd acc =
+  through_branch tl start c hd (acc ++ map (through_event hd c) (filter (from_start start) lo)).
+Proof.
+  induction lo as [|x lo IH]; intros tl acc Hstd Hlt.
+  - cbn. rewrite app_nil_r. reflexivity.
+  - inversion Hstd as [|? ? Hx Hstd']; subst.
+    assert (Hxl : bnum (seg_blk x) < rn (cu_blk c)) by (apply Hlt; left; reflexivity).
+    assert (Hlt' : forall y, In y lo -> bnum (seg_blk y) < rn (cu_blk c)) by (intros y Hy; apply Hlt; right; exact Hy).
+    cbn [app through_branch filter]. pose proof Hx as [_ Hn]. unfold from_start at 1. rewrite <- Hn.
+    destruct (snum x <? start) eqn:E1; destruct (start <=? snum x) eqn:E2; try lia.
+    + apply IH; assumption.
+    + rewrite wrap_through by exact Hx. fold (seg_blk x).
+      assert (E3 : bnum (seg_blk x) <? rn (cu_blk c) = true) by (apply N.ltb_lt; exact Hxl).
+      assert (E4 : bnum (seg_blk x) =? rn (cu_blk c) = false) by (apply N.eqb_neq; lia).
+      rewrite E3, E4. cbn [orb]. rewrite IH by assumption. cbn [map]. rewrite <- app_assoc. reflexivity.
+Qed.
+
+Lemma through_branch_top : forall start c hd top acc, seg_std top -> bnum (seg_blk top) = rn (cu_blk c) ->
+  through_branch [top] start c hd acc =
+  if from_start start top then Some (acc ++ if is_undo c then [] else [through_event hd c top]) else None.
+Proof.
+  intros start c hd top acc Hx Hn. cbn [through_branch]. pose proof Hx as [_ Hs].
+  unfold from_start. rewrite <- Hs.
+  destruct (snum top <? start) eqn:E1; destruct (start <=? snum top) eqn:E2; try lia; [reflexivity|].
+  rewrite wrap_through by exact Hx. fold (seg_blk top). rewrite Hn, N.eqb_refl, N.ltb_irrefl. cbn [orb andb].
+  unfold is_undo. destruct (matches_undo (cu_step c)); cbn [negb]; [rewrite app_nil_r|]; reflexivity.
+Qed.
+
+Lemma through_keep_lo : forall start c lo, (forall y, In y lo -> sid y <> ri (cu_blk c)) ->
+  filter (through_keep start c) lo = filter (from_start start) lo.
+Proof.
+  intros start c lo H. apply filter_ext_in. intros y Hy. unfold through_keep.
+  assert (E : sid y =? ri (cu_blk c) = false) by (apply N.eqb_neq; apply H; exact Hy).
+  rewrite E, andb_false_r. cbn. apply andb_true_r.
+Qed.
+
+(* the branch ends with the cursor block, all others are lower *)
+Lemma through_branch_spec : forall start c hd lo top,
+  Forall seg_std (lo ++ [top]) -> StronglySorted seg_lt (lo ++ [top]) ->
+  sid top = ri (cu_blk c) -> bnum (seg_blk top) = rn (cu_blk c) ->
+  NoDup (map sid (lo ++ [top])) ->
+  through_branch (lo ++ [top]) start c hd [] =
+    if start <=? rn (cu_blk c)
+    then Some (map (through_event hd c) (filter (through_keep start c) (lo ++ [top]))) else None.
+Proof.
+  intros start c hd lo top Hstd Hinc Hid Hnum Hnd.
+  destruct (StronglySorted_split _ _ _ _ Hinc) as [Hlo _].
+  assert (Hlt : forall y, In y lo -> bnum (seg_blk y) < rn (cu_blk c)).
+  { intros y Hy. rewrite <- Hnum. apply Hlo. exact Hy. }
+  assert (Hne : forall y, In y lo -> sid y <> ri (cu_blk c)).
+  { intros y Hy Heq. rewrite map_app in Hnd. cbn in Hnd. apply NoDup_remove_2 in Hnd. apply Hnd.
+    rewrite app_nil_r. rewrite Hid, <- Heq. apply in_map. exact Hy. }
+  rewrite through_branch_lo; [|eapply Forall_app_l; eauto|exact Hlt].
+  rewrite through_branch_top; [|apply Forall_app_r in Hstd; inversion Hstd; assumption|exact Hnum].
+  unfold from_start at 1. rewrite Hnum.
+  destruct (start <=? rn (cu_blk c)) eqn:E; [|reflexivity].
+  f_equal. cbn [app]. rewrite filter_app, map_app. rewrite through_keep_lo by exact Hne. f_equal.
+  cbn [filter]. unfold through_keep, from_start. rewrite Hnum, E, Hid, N.eqb_refl, andb_true_r. cbn [andb].
+  destruct (is_undo c); reflexivity.
+Qed.
+
+Lemma through_forked_unfold : forall s hd sg start c,
+  wf_state s -> head_chain s hd sg -> starts_within sg start -> block_in (ri (cu_blk c)) sg = false ->
+  blocks_through_cursor s start c =
+    match complete_segment (db s) (cu_blk c) with
+    | None => BFuel
+    | Some (_, false) => BErr
+    | Some ([], true) => BErr
+    | Some ((c0 :: _) as csg, true) =>
+        if start <? snum c0 then BErr else
+        match through_branch csg start c hd [] with
+        | None => BErr
+        | Some pre => match blocks_from_cursor s c with BOk evs => BOk (pre ++ evs) | other => other end
+        end
+    end.
+Proof.
+  intros s hd sg start c W HC Hst Hin.
+  destruct (head_chain_good s hd sg W HC) as [[Hstd _ _ _] _].
+  destruct HC as [Hl [Hh E]].
+  unfold blocks_through_cursor. rewrite Hl, Hh, E. cbn [negb].
+  destruct sg as [|s0 sg']; [contradiction|]. cbn [starts_within] in Hst.
+  assert (Hs0 : snum s0 = bnum (seg_blk s0)) by (inversion Hstd as [|? ? [_ Hn] _]; exact Hn).
+  assert (E1 : start <? snum s0 = false) by (apply N.ltb_ge; lia).
+  rewrite E1, Hin. reflexivity.
+Qed.
+
+Lemma is_undo_already : forall c, is_undo c = step_eqb (cu_step c) SUndo.
+Proof. intros c. unfold is_undo. destruct (cu_step c); reflexivity. Qed.
+
+Lemma c05_through_forked_proof : C05_through_forked.
+Proof.
+  intros s hd sg start c W HC Hst Hin Hnum.
+  pose proof W as [[Wst _] _].
+  destruct (complete_segment_total (db s) (cu_blk c) Wst) as [csg [reach E]].
+  exists csg, reach. split; [exact E|].
+  destruct (numbered_segment_good (db s) (cu_blk c) csg reach Wst E Hnum) as [G [Hstored [_ [Hmax [Htop Hreach]]]]].
+  pose proof G as [Hstd Hlk Hinc Hnd].
+  assert (Htop' : forall lo x, csg = lo ++ [x] -> sid x = ri (cu_blk c) /\ bnum (seg_blk x) = rn (cu_blk c)).
+  { intros lo x ->. destruct (Htop lo x eq_refl) as [H1 H2]. split; [exact H1|].
+    rewrite <- H2. symmetry. apply (std_num _ Hstd). apply in_app_iff. right. left. reflexivity. }
+  split; [exact G|]. split; [exact Hstored|]. split; [exact Hmax|]. split; [exact Htop'|]. split; [exact Hreach|].
+  rewrite (through_forked_unfold s hd sg start c W HC Hst Hin), E.
+  split; [intros ->; destruct reach; reflexivity|].
+  split; [intros ->; destruct csg; reflexivity|].
+  split.
+  { intros c0 rest -> Hlt. destruct reach; [|reflexivity].
+    assert (Hc0 : snum c0 = bnum (seg_blk c0)) by (inversion Hstd as [|? ? [_ Hn] _]; exact Hn).
+    assert (E1 : start <? snum c0 = true) by (apply N.ltb_lt; lia). rewrite E1. reflexivity. }
+  (* the branch walk *)
+  assert (Hwalk : forall lo top, csg = lo ++ [top] ->
+            through_branch csg start c hd [] =
+              if start <=? rn (cu_blk c)
+              then Some (map (through_event hd c) (filter (through_keep start c) csg)) else None).
+  { intros lo top ->. destruct (Htop' lo top eq_refl) as [H1 H2]. apply through_branch_spec; auto. }
+  split.
+  { intros Hlt. destruct reach; [|destruct csg; reflexivity]. destruct csg as [|c0 rest] eqn:Ecsg; [reflexivity|].
+    destruct (start <? snum c0); [reflexivity|]. rewrite <- Ecsg in *.
+    destruct (list_snoc_cases csg) as [Hnil|[lo [top Hsn]]]; [rewrite Hnil in Ecsg; discriminate|].
+    rewrite (Hwalk lo top Hsn).
+    assert (E1 : start <=? rn (cu_blk c) = false) by (apply N.leb_gt; exact Hlt). rewrite E1. reflexivity. }
+  intros -> c0 rest Ecsg Hc0 Hle own pre nfin. subst csg. set (csg := c0 :: rest) in *.
+  assert (Hc0n : snum c0 = bnum (seg_blk c0)) by (apply (std_num _ Hstd); left; reflexivity).
+  assert (E1 : start <? snum c0 = false) by (apply N.ltb_ge; lia).
+  assert (E2 : start <=? rn (cu_blk c) = true) by (apply N.leb_le; exact Hle).
+  destruct (list_snoc_cases csg) as [Hnil|[lo [top Hsn]]]; [discriminate|].
+  destruct (Htop' lo top Hsn) as [Htid Htnum].
+  split.
+  { unfold csg at 1. rewrite E1. fold csg. rewrite (Hwalk lo top Hsn), E2. reflexivity. }
+  (* the shape of `own` *)
+  destruct (from_start_suffix start csg Hinc) as [lo' [Esuf Hlo']].
+  assert (Ekept : filter (from_start start) csg = filter (from_start start) lo ++ [top]).
+  { rewrite Hsn, filter_snoc. unfold from_start at 1. rewrite Htnum, E2. reflexivity. }
+  assert (Hne : forall y, In y lo -> sid y <> ri (cu_blk c)).
+  { intros y Hy Heq. rewrite Hsn, map_app in Hnd. cbn in Hnd. apply NoDup_remove_2 in Hnd. apply Hnd.
+    rewrite app_nil_r. rewrite Htid, <- Heq. apply in_map. exact Hy. }
+  assert (Eown : own = if is_undo c then filter (from_start start) lo else filter (from_start start) lo ++ [top]).
+  { unfold own. rewrite Hsn, filter_app. rewrite through_keep_lo by exact Hne. cbn [filter].
+    unfold through_keep, from_start. rewrite Htnum, E2, Htid, N.eqb_refl, andb_true_r. cbn [andb].
+    destruct (is_undo c); cbn [negb]; [apply app_nil_r|reflexivity]. }
+  split.
+  { exists lo', (filter (from_start start) lo), top.
+    split; [rewrite <- Ekept; exact Esuf|]. split; [exact Htid|]. split; [exact Hlo'|]. split; [|exact Eown].
+    intros y Hy. rewrite <- Ekept in Hy. apply filter_In in Hy. destruct Hy as [_ Hy]. unfold from_start in Hy. lia. }
+  (* the consumer *)
+  assert (Gk : Forall seg_std (filter (from_start start) lo ++ [top]) /\
+               Sorted seg_link (filter (from_start start) lo ++ [top]) /\
+               StronglySorted seg_lt (filter (from_start start) lo ++ [top])).
+  { rewrite <- Ekept. apply good_seg_filter_suffix; [exact G|]. intros x y Hxy. apply from_start_mono. exact Hxy. }
+  destruct Gk as [Kstd [Klk Kinc]].
+  assert (Go : Forall seg_std own /\ Sorted seg_link own /\ StronglySorted seg_lt own).
+  { rewrite Eown. destruct (is_undo c); [|auto].
+    split; [eapply Forall_app_l; eauto|]. split; [eapply Sorted_app_l; eauto|eapply StronglySorted_app_l; eauto]. }
+  destruct Go as [Ostd [Olk Oinc]].
+  exact (chain_fold0 (rn (cu_lib c)) (through_event hd c) (fun x => eq_refl) (fun x => eq_refl) own Ostd Olk Oinc).
+Qed.
